@@ -4,6 +4,7 @@
    first finish).  That every way an RPC can end reaches exactly one finish, and which sizes are added, is checked on
    the implementation against sizes recomputed from the raw frames. *)
 From FMP Require Import Base.Bytes Model.Instrument Model.Events Model.Props.
+From FMP Require Import Model.CodecCfg Proofs.CodecCfgProofs.
 From FMP Require Import Model.Paths Proofs.PathProofs.
 Open Scope Z_scope.
 
@@ -40,6 +41,10 @@ Theorem C20_never_accounted_twice : never_accounted_twice = true. Proof. exact p
 Theorem C20_serve_paths_reply : serve_paths_reply = true. Proof. exact paths_serve_replies. Qed.
 Theorem C20_paths_nonvacuous : paths_nonvacuous = true. Proof. exact paths_are_nonvacuous. Qed.
 
+(* the size a record is finished with is what the encoder reports: 0 for a refused frame, the byte count of the frame otherwise, on both entries (regenerated return census of codec.go) *)
+Theorem C20_encoder_reports_the_frame_bytes : cdf_size_reported codecfacts_now = true.
+Proof. exact codec_size_reported. Qed.
+
 Print Assumptions C20_one_record_per_instrumenter.
 Print Assumptions C20_second_finish_refused.
 Print Assumptions C20_recorded_size_is_sum.
@@ -50,3 +55,4 @@ Print Assumptions C20_reply_paths_accounted.
 Print Assumptions C20_never_accounted_twice.
 Print Assumptions C20_serve_paths_reply.
 Print Assumptions C20_paths_nonvacuous.
+Print Assumptions C20_encoder_reports_the_frame_bytes.
